@@ -3,6 +3,7 @@ package main
 import (
 	"fmt"
 	"go/ast"
+	"go/constant"
 	"go/token"
 	"go/types"
 	"os"
@@ -1900,6 +1901,92 @@ func c12r15(c *Ctx, r *Report) {
 	r.floor("redirected commands built in runProxy", n, 3)
 }
 
+// c09r23: the query is limited to maxPatternLength runes; Terminal.Loop cuts it after every action. The query
+// a session starts with is the same query, so NewTerminal applies the same limit (D88: it did not: a --query of
+// 1200 runes was searched as given, and the first action of any kind — even `up` — cut it to 1000 runes, which
+// counted as a query change and re-ran the search with other results).
+func c09r23(c *Ctx, r *Report) {
+	l := c.L
+	r.rule("C09-R23", "D (the initial query is limited like every later one)", "P1",
+		"in NewTerminal, the value stored into Terminal.input is a slice expression whose upper bound is computed from the constant maxPatternLength",
+		"a cursor motion changes the query: an over-long --query is shortened by the first action and the result list changes under a navigation key")
+	fn := l.Fn("fzf", "NewTerminal")
+	fIn := l.Field("fzf", "Terminal", "input")
+	k := l.Const("fzf", "maxPatternLength")
+	if fn == nil || fIn == nil || k == nil {
+		r.unest("anchors", token.NoPos, nil, "anchors NewTerminal / Terminal.input / maxPatternLength", "cannot resolve")
+		return
+	}
+	limit, _ := constantInt64(k)
+	n := 0
+	eachInstr(fn, func(in ssa.Instruction) {
+		st, ok := in.(*ssa.Store)
+		if !ok {
+			return
+		}
+		if f, _ := fieldOf(st.Addr); f != fIn {
+			return
+		}
+		n++
+		good := false
+		if sl, ok := stripConv(st.Val).(*ssa.Slice); ok && sl.High != nil {
+			for v := range backwardSlice(sl.High, func(*ssa.CallCommon) bool { return true }, nil) {
+				if isConstInt(v, limit) {
+					good = true
+				}
+			}
+		}
+		r.check(good, fmt.Sprintf("%s:initial query #%d is cut to maxPatternLength", relName(fn), n), st.Pos(), fn,
+			"input[:min(len, maxPatternLength)]", "the query given with --query is stored at its full length: the event loop cuts it after the first action, whatever the action is")
+	})
+	r.floor("stores into Terminal.input in NewTerminal", n, 1)
+}
+
+// c09r24: with --no-input (or after hide-input) the query cannot be edited: Terminal.Loop puts it back after
+// every action. The history cursor is part of the same editor state, so previous-history / next-history leave it
+// alone while the input is hidden (D89: they moved it and recorded the query as an edit of the entry: after
+// hide-input, previous-history twice, show-input, the next previous-history showed the third most recent entry).
+func c09r24(c *Ctx, r *Report) {
+	l := c.L
+	r.rule("C09-R24", "A (the history cursor moves only while the query can change)", "P1",
+		"in Terminal.Loop and its closures, every call of History.previous, History.next and History.override is control dependent on a test of Terminal.inputless",
+		"history navigation pressed while the input is hidden is remembered: after show-input the history continues from an entry the user never saw")
+	loop := l.Fn("fzf", "(*Terminal).Loop")
+	fLess := l.Field("fzf", "Terminal", "inputless")
+	targets := map[*ssa.Function]bool{}
+	for _, nm := range []string{"previous", "next", "override"} {
+		if f := l.Fn("fzf", "(*History)."+nm); f != nil {
+			targets[f] = true
+		}
+	}
+	if loop == nil || fLess == nil || len(targets) != 3 {
+		r.unest("anchors", token.NoPos, nil, "anchors Terminal.Loop / History.previous / next / override / Terminal.inputless", "cannot resolve")
+		return
+	}
+	cc := cdCache{}
+	n := 0
+	for _, fn := range withClosures(loop) {
+		eachInstr(fn, func(in ssa.Instruction) {
+			callee := staticCallee(in)
+			if callee == nil || !targets[callee] {
+				return
+			}
+			n++
+			under := false
+			for cond := range cc.of(in) {
+				for v := range backwardSlice(cond, nil, nil) {
+					if f, _ := loadedField(v); f == fLess {
+						under = true
+					}
+				}
+			}
+			r.check(under, fmt.Sprintf("%s:history call #%d (%s)", relName(rootFn(fn)), n, callee.Name()), in.Pos(), fn,
+				"only while the input is shown", "History."+callee.Name()+" is called whether or not the input is hidden: the history cursor moves although the query is put back")
+		})
+	}
+	r.floor("calls of History.previous / next / override in Terminal.Loop", n, 4)
+}
+
 func round10(c *Ctx, r *Report, prop string) {
 	switch prop {
 	case "C01":
@@ -1917,6 +2004,8 @@ func round10(c *Ctx, r *Report, prop string) {
 		c09r20(c, r)
 		c09r21(c, r)
 		c09r22(c, r)
+		c09r23(c, r)
+		c09r24(c, r)
 	case "C10":
 		c10r13(c, r)
 		c10r14(c, r)
@@ -1950,4 +2039,19 @@ func round10(c *Ctx, r *Report, prop string) {
 	case "C13":
 		c06r8(c, r) // the count of items is the same whichever goroutine computes it
 	}
+}
+
+func constantInt64(k *types.Const) (int64, bool) {
+	if k == nil || k.Val() == nil {
+		return 0, false
+	}
+	v, ok := constantToInt64(k.Val())
+	return v, ok
+}
+
+func constantToInt64(v constant.Value) (int64, bool) {
+	if v.Kind() != constant.Int {
+		return 0, false
+	}
+	return constant.Int64Val(v)
 }
